@@ -14,7 +14,7 @@ From ClapModel Require Import ParseProofs.Safe ParseProofs.Invariant ParseProofs
                               ParseProofs.Unparse ParseProofs.UnparseProofs ParseProofs.UnparseTop
                               ParseProofs.UnparseSub ParseProofs.UnparseTrail ParseProofs.UnparseTree.
 From ClapModel Require Import Derive.DeriveModel Derive.DeriveProofs Derive.DeriveCmd Derive.DeriveArgs Derive.DeriveParse
-                              Derive.DeriveAccept Derive.DerivePost Derive.LoopInv Derive.DeriveFlat.
+                              Derive.DeriveAccept Derive.DerivePost Derive.LoopInv Derive.DeriveFlat Derive.DeriveEnum.
 From Coq Require Import ZArith List Bool Lia.
 From RecordUpdate Require Import RecordSet.
 Import RecordSetNotations.
@@ -128,10 +128,10 @@ Qed.
 End Fields.
 
 (** * 2. from the value parser's language to the typed value *)
-Lemma vp_accepts_scalar cnt t ic s : (forall e, t <> TEnum e) ->
-  vp_parse (vp_of cnt t) s = None -> is_some (parse_scalar t ic s) = true.
+Lemma vp_accepts_scalar cnt t ic s :
+  vp_parse (vp_of cnt ic t) s = None -> is_some (parse_scalar t ic s) = true.
 Proof.
-  intros Hne. destruct t as [| | | |e]; [| | | |contradiction (Hne e); reflexivity]; cbn [vp_of parse_scalar vp_parse].
+  destruct t as [| | | |e]; [| | | |apply enum_accepts_scalar]; cbn [vp_of parse_scalar vp_parse].
   - destruct (beq s s_true); [reflexivity|]. destruct (beq s s_false); [reflexivity|discriminate].
   - unfold parse_int_in. destruct cnt; cbn [vp_parse]; destruct (negb (utf8_valid s)); try discriminate;
       destruct (parse_i64 s) as [z|]; try discriminate; destruct ((0 <=? z) && (z <=? 255))%Z; try discriminate; reflexivity.
@@ -179,41 +179,84 @@ Proof.
   destruct (field_action f); try exact H; exists (bf_num f); split; assumption.
 Qed.
 
+(** every value stored for a leaf field passed the field's own value parser, hence has a typed reading -- enum fields
+    included: their parser is the real [EnumValueParser] ([vp_of] = [VPPossible ic (enum_pvs e)], [DeriveEnum]) *)
+Lemma level_typed d bin toks st :
+  flat_nodes (d_nodes d) = true -> valid (with_bin (derive_cmd d) bin) = true ->
+  get_matches_with (S (S (depth (built d bin)))) (built d bin) toks ps_new = ROk st ->
+  forall f ma, In f (leaves (d_nodes d)) -> f_ty f <> TyUnit -> fm_get (f_id f) (mt_args (mt st)) = Some ma ->
+  forallb (forallb (fun s => is_some (parse_scalar (f_t f) (f_icase f) s))) (m_raw ma) = true.
+Proof.
+  intros Hfo Hv Hr f ma Hf Hnu Ge. set (c := built d bin) in *.
+  pose proof (builtg_app d bin Hv) as Happ. pose proof (assert_app_W3 c Happ) as W3.
+  pose proof (gmw_typed (S (S (depth c))) c toks ps_new Happ (TS_ps_new c)) as Hty. rewrite Hr in Hty. cbn [holds] in Hty. destruct Hty as [Hte _].
+  destruct (builtg_of d bin Hfo f Hf) as [a' [Ha' Hof]].
+  destruct (of_field_facts f a' Hof) as (Fid & Fvp & _).
+  rewrite <- Fid in Ge.
+  assert (Hvp : a_vp a' = Some (vp_of (is_count (Some (field_action f))) (f_icase f) (f_t f)))
+    by (rewrite Fvp, bf_vp_eq; unfold field_vp; destruct (f_ty f); try reflexivity; contradiction Hnu; reflexivity).
+  pose proof (Hte (a_id a') ma a' _ (fm_get_In _ _ _ Ge) (W3 a' Ha') Hvp) as Hacc.
+  apply forallb_forall; intros g Hgin; apply forallb_forall; intros s Hs.
+  apply (vp_accepts_scalar (is_count (Some (field_action f))) (f_t f) (f_icase f) s).
+  rewrite Forall_forall in Hacc; pose proof (Hacc g Hgin) as Hg0; rewrite Forall_forall in Hg0; apply (Hg0 s Hs).
+Qed.
+
+(** ... so the check the derive model made after the parse until round 5 ([enum_ok_nodes]: every raw value held for an
+    enum-typed field is a name of the enum) is a THEOREM about the matches of a successful level *)
+Theorem level_enum_ok d bin toks st :
+  flat_nodes (d_nodes d) = true -> Forall (fun f => f_ty f <> TyUnit) (leaves (d_nodes d)) ->
+  valid (with_bin (derive_cmd d) bin) = true ->
+  get_matches_with (S (S (depth (built d bin)))) (built d bin) toks ps_new = ROk st ->
+  enum_ok_nodes (d_nodes d) (into_inner (mt st)) = true.
+Proof.
+  intros Hfo Hnu Hv Hr. pose proof (level_typed d bin toks st Hfo Hv Hr) as Hty.
+  assert (Hfield : forall f, In f (leaves (d_nodes d)) -> entry_ok (f_t f) (f_icase f) (f_id f) (into_inner (mt st)) = true).
+  { intros f Hf. unfold entry_ok. destruct (f_t f) as [| | | |e] eqn:Et; try reflexivity. cbn [into_inner ms_args].
+    destruct (fm_get (f_id f) (mt_args (mt st))) as [ma|] eqn:Ge; [|reflexivity].
+    rewrite <- Et. apply (Hty f ma Hf (proj1 (Forall_forall _ _) Hnu f Hf) Ge). }
+  revert Hfield. generalize (into_inner (mt st)). intros m. generalize (d_nodes d) Hfo. clear.
+  assert (H : (forall nd, flat_node nd = true ->
+                 (forall f, In f (leaves_node nd) -> entry_ok (f_t f) (f_icase f) (f_id f) m = true) -> enum_ok_node nd m = true)
+              /\ (forall ns, flat_nodes ns = true ->
+                 (forall f, In f (leaves ns) -> entry_ok (f_t f) (f_icase f) (f_id f) m = true) -> enum_ok_nodes ns m = true)
+              /\ (forall vs : variants, True)).
+  { apply derive_mutind.
+    - intros f _ Hfield. cbn [enum_ok_node]. apply Hfield. left. reflexivity.
+    - intros opt gid body IH Hfl Hfield. cbn [enum_ok_node]. apply IH; assumption.
+    - intros opt vs _ Hfl. discriminate Hfl.
+    - intros _ _. reflexivity.
+    - intros nd IHn t IHt Hfl Hfield. cbn [flat_nodes] in Hfl. apply andb_prop in Hfl. destruct Hfl as [F1 F2].
+      cbn [enum_ok_nodes]. apply andb_true_intro. split.
+      + apply IHn; [exact F1|]. intros f Hf. apply Hfield. cbn [leaves]. apply in_or_app. left. exact Hf.
+      + apply IHt; [exact F2|]. intros f Hf. apply Hfield. cbn [leaves]. apply in_or_app. right. exact Hf.
+    - exact I.
+    - intros; exact I. }
+  intros n Hfl Hfield. apply (proj1 (proj2 H) n Hfl Hfield).
+Qed.
+
 Theorem level_guarantees d bin toks st :
   flat_nodes (d_nodes d) = true -> Forall guarded (leaves (d_nodes d)) ->
   valid (with_bin (derive_cmd d) bin) = true ->
   get_matches_with (S (S (depth (built d bin)))) (built d bin) toks ps_new = ROk st ->
-  enum_ok_nodes (d_nodes d) (into_inner (mt st)) = true ->
   guar_nodes (d_nodes d) (into_inner (mt st)).
 Proof.
-  intros Hfo Hg Hv Hr He. set (c := built d bin) in *.
+  intros Hfo Hg Hv Hr. pose proof (level_typed d bin toks st Hfo Hv Hr) as Htyped. set (c := built d bin) in *.
   pose proof (builtg_app d bin Hv) as Happ. assert (Hie : is_set s_ignore_errors (built d bin) = false) by (rewrite (builtf_is_set d bin Hfo); reflexivity).
   pose proof (assert_app_W3 c Happ) as W3.
-  (* the four facts about the final state *)
+  (* the facts about the final state *)
   destruct (gmw_nonempty c Happ Hie _ toks st Hr) as [Wf Hne].
-  pose proof (gmw_typed (S (S (depth c))) c toks ps_new Happ (TS_ps_new c)) as Hty. rewrite Hr in Hty. cbn [holds] in Hty. destruct Hty as [Hte _].
   pose proof (gmw_sound (S (S (depth c))) c toks ps_new st Happ Hr Wf) as Hrel.
   destruct (precedence (S (depth c)) c toks ps_new st (assert_app_ids_distinct c Happ) Hr) as (st_c & st1 & st2 & _ & _ & _ & _ & Hprec).
   (* field by field *)
-  assert (Hfield : forall f, In f (leaves (d_nodes d)) -> entry_ok (f_t f) (f_icase f) (f_id f) (into_inner (mt st)) = true ->
-            guar_node (NArg f) (into_inner (mt st))).
-  { intros f Hf Hen. pose proof (proj1 (Forall_forall _ _) Hg f Hf) as [Hnu Hplain].
+  assert (Hfield : forall f, In f (leaves (d_nodes d)) -> guar_node (NArg f) (into_inner (mt st))).
+  { intros f Hf. pose proof (proj1 (Forall_forall _ _) Hg f Hf) as [Hnu Hplain].
     destruct (builtg_of d bin Hfo f Hf) as [a' [Ha' Hof]].
     destruct (of_field_facts f a' Hof) as (Fid & Fvp & Fnum & Fact & Freq & Fdef & Fifs & Fenv & _).
     cbn [guar_node into_inner ms_args]. rewrite <- Fid.
     destruct (fm_get (a_id a') (mt_args (mt st))) as [ma|] eqn:Ge.
     - (* the entry is typed, and holds a value when the field is plain *)
-      assert (Hraw : forallb (forallb (fun s => is_some (parse_scalar (f_t f) (f_icase f) s))) (m_raw ma) = true).
-      { destruct (f_t f) as [| | | |e] eqn:Et.
-        5: { unfold entry_ok in Hen. cbn [into_inner ms_args] in Hen. rewrite <- Fid, Ge in Hen. exact Hen. }
-        all: rewrite <- Et;
-          assert (Hvp : a_vp a' = Some (vp_of (is_count (Some (field_action f))) (f_t f)))
-            by (rewrite Fvp, bf_vp_eq; unfold field_vp; destruct (f_ty f); try reflexivity; contradiction Hnu; reflexivity);
-          pose proof (Hte (a_id a') ma a' _ (fm_get_In _ _ _ Ge) (W3 a' Ha') Hvp) as Hacc;
-          apply forallb_forall; intros g Hgin; apply forallb_forall; intros s Hs;
-          apply (vp_accepts_scalar (is_count (Some (field_action f))) (f_t f) (f_icase f) s);
-          [rewrite Et; intros e0; discriminate|];
-          rewrite Forall_forall in Hacc; pose proof (Hacc g Hgin) as Hg0; rewrite Forall_forall in Hg0; apply (Hg0 s Hs). }
+      assert (Hraw : forallb (forallb (fun s => is_some (parse_scalar (f_t f) (f_icase f) s))) (m_raw ma) = true)
+        by (apply (Htyped f ma Hf Hnu); rewrite <- Fid; exact Ge).
       destruct (typed_groups_of_ok _ _ ma Hraw) as [gs [Etg Hcat]]. exists gs. split; [exact Etg|].
       intros Hoth. destruct (Hplain Hoth) as [Hfull _].
       destruct (Hne a' ma Ha' (full_of_field f a' Hof Hfull) Ge) as [N1 N2]. apply (Hcat N1 N2).
@@ -238,27 +281,25 @@ Proof.
         * rewrite Fdef in Hres. destruct (bf_default f) as [|d0 dr]; [contradiction Hdef; reflexivity|].
           cbn [is_nil] in Hres. destruct Hres as [vs [e [_ [_ [Gx _]]]]]. rewrite Ge in Gx. discriminate Gx. }
   (* all fields, through the flatten nesting *)
-  clear Hprec Hrel Hte Hne. revert Hfield He. generalize (into_inner (mt st)). intros m.
+  clear Hprec Hrel Hne Htyped. revert Hfield. generalize (into_inner (mt st)). intros m.
   generalize (d_nodes d) Hfo. clear.
   assert (H : (forall nd, flat_node nd = true ->
-                 (forall f, In f (leaves_node nd) -> entry_ok (f_t f) (f_icase f) (f_id f) m = true -> guar_node (NArg f) m) ->
-                 enum_ok_node nd m = true -> guar_node nd m)
+                 (forall f, In f (leaves_node nd) -> guar_node (NArg f) m) -> guar_node nd m)
               /\ (forall ns, flat_nodes ns = true ->
-                 (forall f, In f (leaves ns) -> entry_ok (f_t f) (f_icase f) (f_id f) m = true -> guar_node (NArg f) m) ->
-                 enum_ok_nodes ns m = true -> guar_nodes ns m)
+                 (forall f, In f (leaves ns) -> guar_node (NArg f) m) -> guar_nodes ns m)
               /\ (forall vs : variants, True)).
   { apply derive_mutind.
-    - intros f _ Hfield He. apply Hfield; [left; reflexivity|exact He].
-    - intros opt gid body IH Hfl Hfield He. cbn [guar_node]. intros _. apply IH; assumption.
+    - intros f _ Hfield. apply Hfield. left. reflexivity.
+    - intros opt gid body IH Hfl Hfield. cbn [guar_node]. intros _. apply IH; assumption.
     - intros opt vs _ Hfl. discriminate Hfl.
-    - intros _ _ _. exact I.
-    - intros nd IHn t IHt Hfl Hfield He. cbn [flat_nodes] in Hfl. apply andb_prop in Hfl. destruct Hfl as [F1 F2].
-      cbn [enum_ok_nodes] in He. apply andb_prop in He. destruct He as [He1 He2]. cbn [guar_nodes]. split.
-      + apply IHn; [exact F1| |exact He1]. intros f Hf. apply Hfield. cbn [leaves]. apply in_or_app. left. exact Hf.
-      + apply IHt; [exact F2| |exact He2]. intros f Hf. apply Hfield. cbn [leaves]. apply in_or_app. right. exact Hf.
+    - intros _ _. exact I.
+    - intros nd IHn t IHt Hfl Hfield. cbn [flat_nodes] in Hfl. apply andb_prop in Hfl. destruct Hfl as [F1 F2].
+      cbn [guar_nodes]. split.
+      + apply IHn; [exact F1|]. intros f Hf. apply Hfield. cbn [leaves]. apply in_or_app. left. exact Hf.
+      + apply IHt; [exact F2|]. intros f Hf. apply Hfield. cbn [leaves]. apply in_or_app. right. exact Hf.
     - exact I.
     - intros; exact I. }
-  intros n Hfl Hfield He. apply (proj1 (proj2 H) n Hfl Hfield He).
+  intros n Hfl Hfield. apply (proj1 (proj2 H) n Hfl Hfield).
 Qed.
 
 (** * 4. the ids of a struct of fields are distinct once the command passed clap's assertions *)
@@ -319,31 +360,40 @@ Qed.
 Theorem extract_total_argv_flat d argv m :
   flat_nodes (d_nodes d) = true -> wf_nodes (d_nodes d) -> Forall guarded (leaves (d_nodes d)) ->
   valid (with_bin (derive_cmd d) (hd [] argv)) = true ->
-  parse_top (derive_cmd d) argv = OOk m -> enum_ok_nodes (d_nodes d) m = true ->
+  parse_top (derive_cmd d) argv = OOk m ->
   exists vs, extract d m = XOk vs.
 Proof.
-  intros Hfo Hwf Hg Hv Hp He. destruct (parse_top_flat d argv m Hfo Hv Hp) as [st [Hr ->]].
-  apply extract_total; [exact Hwf|]. apply (level_guarantees d _ _ st Hfo Hg Hv Hr He).
+  intros Hfo Hwf Hg Hv Hp. destruct (parse_top_flat d argv m Hfo Hv Hp) as [st [Hr ->]].
+  apply extract_total; [exact Hwf|]. apply (level_guarantees d _ _ st Hfo Hg Hv Hr).
+Qed.
+
+(** the matches of a successful parse of the generated command hold only enum names for enum-typed fields *)
+Theorem parse_enum_ok d argv m :
+  flat_nodes (d_nodes d) = true -> Forall (fun f => f_ty f <> TyUnit) (leaves (d_nodes d)) ->
+  valid (with_bin (derive_cmd d) (hd [] argv)) = true ->
+  parse_top (derive_cmd d) argv = OOk m -> enum_ok_nodes (d_nodes d) m = true.
+Proof.
+  intros Hfo Hnu Hv Hp. destruct (parse_top_flat d argv m Hfo Hv Hp) as [st [Hr ->]].
+  apply (level_enum_ok d _ _ st Hfo Hnu Hv Hr).
 Qed.
 
 Theorem parse_iff_command_flat d argv :
   flat_nodes (d_nodes d) = true -> wf_nodes (d_nodes d) -> Forall guarded (leaves (d_nodes d)) ->
   valid (with_bin (derive_cmd d) (hd [] argv)) = true ->
-  ((exists vs, derived_parse d argv = PValue vs) <-> (exists m, cmd_parse (derive_cmd d) (d_nodes d) argv = OOk m)).
+  ((exists vs, derived_parse d argv = PValue vs) <-> (exists m, parse_top (derive_cmd d) argv = OOk m)).
 Proof.
   intros Hfo Hwf Hg Hv. split.
-  - intros [vs H]. apply parse_factor in H. destruct H as [m [Hp [He _]]]. exists m. unfold cmd_parse. rewrite Hp, He. reflexivity.
-  - intros [m H]. unfold cmd_parse in H. destruct (parse_top (derive_cmd d) argv) as [m'| | | |] eqn:Hp; try discriminate H.
-    destruct (enum_ok_nodes (d_nodes d) m') eqn:He; [|discriminate H].
-    destruct (extract_total_argv_flat d argv m' Hfo Hwf Hg Hv Hp He) as [vs Hx]. exists vs.
-    apply parse_factor. exists m'. auto.
+  - intros [vs H]. apply parse_factor in H. destruct H as [m [Hp _]]. exists m. exact Hp.
+  - intros [m Hp].
+    destruct (extract_total_argv_flat d argv m Hfo Hwf Hg Hv Hp) as [vs Hx]. exists vs.
+    apply parse_factor. exists m. auto.
 Qed.
 
 (** the struct-of-fields instances ([wf_nodes] follows from [valid]) *)
 Theorem extract_total_argv d argv m :
   fields_only (d_nodes d) = true -> Forall guarded (fields_of (d_nodes d)) ->
   valid (with_bin (derive_cmd d) (hd [] argv)) = true ->
-  parse_top (derive_cmd d) argv = OOk m -> enum_ok_nodes (d_nodes d) m = true ->
+  parse_top (derive_cmd d) argv = OOk m ->
   exists vs, extract d m = XOk vs.
 Proof.
   intros Hfo Hg Hv. destruct (fields_flat _ Hfo) as (Hfl & El & _).
@@ -353,7 +403,7 @@ Qed.
 Theorem parse_iff_command d argv :
   fields_only (d_nodes d) = true -> Forall guarded (fields_of (d_nodes d)) ->
   valid (with_bin (derive_cmd d) (hd [] argv)) = true ->
-  ((exists vs, derived_parse d argv = PValue vs) <-> (exists m, cmd_parse (derive_cmd d) (d_nodes d) argv = OOk m)).
+  ((exists vs, derived_parse d argv = PValue vs) <-> (exists m, parse_top (derive_cmd d) argv = OOk m)).
 Proof.
   intros Hfo Hg Hv. destruct (fields_flat _ Hfo) as (Hfl & El & _).
   apply (parse_iff_command_flat d argv Hfl (valid_fields_wf d _ Hfo Hv)); [rewrite El; exact Hg|exact Hv].
@@ -460,12 +510,12 @@ Qed.
 Theorem extract_total_argv_flat_valid d argv m :
   flat_nodes (d_nodes d) = true -> Forall guarded (leaves (d_nodes d)) ->
   valid (with_bin (derive_cmd d) (hd [] argv)) = true ->
-  parse_top (derive_cmd d) argv = OOk m -> enum_ok_nodes (d_nodes d) m = true ->
+  parse_top (derive_cmd d) argv = OOk m ->
   exists vs, extract d m = XOk vs.
 Proof. intros Hfl Hg Hv. apply (extract_total_argv_flat d argv m Hfl (valid_flat_wf d _ Hfl Hv) Hg Hv). Qed.
 
 Theorem parse_iff_command_flat_valid d argv :
   flat_nodes (d_nodes d) = true -> Forall guarded (leaves (d_nodes d)) ->
   valid (with_bin (derive_cmd d) (hd [] argv)) = true ->
-  ((exists vs, derived_parse d argv = PValue vs) <-> (exists m, cmd_parse (derive_cmd d) (d_nodes d) argv = OOk m)).
+  ((exists vs, derived_parse d argv = PValue vs) <-> (exists m, parse_top (derive_cmd d) argv = OOk m)).
 Proof. intros Hfl Hg Hv. apply (parse_iff_command_flat d argv Hfl (valid_flat_wf d _ Hfl Hv) Hg Hv). Qed.
